@@ -360,7 +360,17 @@ pub fn eval(op: &str, t: &mut Toks) -> R<String> {
         "C12.cp" => {
             let g = t.geom()?;
             let p = Point(t.coord()?);
-            Ok(match g.closest_point(&p) {
+            // a Point operand is asked through each of its three entry points in rotation: the `Geometry` enum, the
+            // `Point` impl and the `Coord` impl (which has a body of its own)
+            let r = match &g {
+                Geometry::Point(q) => match (q.x().to_bits() ^ p.y().to_bits().rotate_left(9)) % 3 {
+                    0 => g.closest_point(&p),
+                    1 => q.closest_point(&p),
+                    _ => q.0.closest_point(&p),
+                },
+                _ => g.closest_point(&p),
+            };
+            Ok(match r {
                 Closest::Intersection(x) => format!("Intersection {}", proto::coord(x.0)),
                 Closest::SinglePoint(x) => format!("SinglePoint {}", proto::coord(x.0)),
                 Closest::Indeterminate => "Indeterminate".to_string(),
